@@ -137,7 +137,13 @@ class ConfigList(ComposedNode, list):
 
     @namespace('ayns')
     def on_merge_impl(self, prefix, other):
-        if isinstance(other, dict) and not other.ayns.delete: # a deleting dict replaces the list, its keys do not address the elements
+        def replaced_by(other):
+            # a deleting node replaces the list unless something of the list survives the pruning (see ComposedNode.on_merge_impl)
+            if not other.ayns.delete or not other.ayns.has_priority_over(self, if_equal=True):
+                return False
+            return not any(node.ayns.has_priority_over(other.ayns.get_first_not_missing_node(path)) for path, node in self.ayns.nodes_with_paths())
+
+        if isinstance(other, dict) and not replaced_by(other): # the keys of a dict which replaces the list do not address its elements
             _missing_keys = []
             for key in other.ayns.children_names():
                 first_missing = None
